@@ -119,14 +119,39 @@ def call(kind, c, fn_desc, args, k):
   """one call of the transformed function; returns (value, object or None)"""
   f = make_fn(fn_desc)
   has_obj = fn_desc.get('obj') is not None
+  rot = c.get('rot', 0)
+  rotate = lambda a: tuple(a[rot:]) + tuple(a[:rot])
+  c['_ret_args'] = None
   if kind == 'eager':
     out = None
+    a = tuple(args)
     for _ in range(k):
-      out = f(*args)
+      out = f(*a)
+      a = rotate(a)
+    c['_ret_args'] = list(a)
     return out if has_obj else (out, None)
+  wrap = c.get('wrap')
+  if wrap and kind in ('jit', 'remat', 'cond', 'switch'):
+    # the same objects handed over inside one container operand (dict / list / nested); the function unpacks it
+    n = len(args)
+    if wrap == 'dict':
+      pack = lambda a: ({'a%d' % i: x for i, x in enumerate(a)},)
+      unpack = lambda cont: [cont['a%d' % i] for i in range(n)]
+    elif wrap == 'list':
+      pack = lambda a: (list(a),)
+      unpack = lambda cont: list(cont)
+    else:
+      pack = lambda a: ({'first': a[0], 'rest': [tuple(a[1:]), jnp.asarray(1, dtype=jnp.int64)]},)
+      unpack = lambda cont: [cont['first']] + list(cont['rest'][0])
+    g0 = f
+    f = lambda cont: g0(*unpack(cont))
+    if kind in ('cond', 'switch'):
+      o0 = make_fn(c['other'])
+      other_w = lambda cont: o0(*unpack(cont))
+    args = pack(args)
   if kind in ('jit', 'remat'):
-    tf = c['_cache'].setdefault((kind, id(fn_desc)), nnx.jit(f) if kind == 'jit' else nnx.remat(f))
-    nkw = c.get('nkw', 0) if kind == 'jit' else 0
+    tf = c['_cache'].setdefault((kind, id(fn_desc), wrap), nnx.jit(f) if kind == 'jit' else nnx.remat(f))
+    nkw = c.get('nkw', 0) if kind == 'jit' and not wrap else 0
     out = tf(*args[:len(args) - nkw], **{'kw%d' % i: a for i, a in enumerate(args[len(args) - nkw:])})
     return out if has_obj else (out, None)
   if kind == 'cpartial':
@@ -136,11 +161,11 @@ def call(kind, c, fn_desc, args, k):
       tf = c['_cache'][(kind, id(fn_desc))] = nnx.cached_partial(nnx.jit(f), *args)
     return tf(), None
   if kind == 'cond':
-    other = make_fn(c['other'])
+    other = other_w if wrap else make_fn(c['other'])
     out = nnx.cond(jnp.asarray(c['pred']), f, other, *args) if c['pred'] else nnx.cond(jnp.asarray(False), other, f, *args)
     return out, None
   if kind == 'switch':
-    other = make_fn(c['other'])
+    other = other_w if wrap else make_fn(c['other'])
     branches = [other, other, other]
     branches[c['index']] = f
     out = nnx.switch(jnp.asarray(c['index']), branches, *args)
@@ -149,8 +174,9 @@ def call(kind, c, fn_desc, args, k):
     def body(i, val):
       a, _ = val
       r = f(*a)
-      return a, r
+      return rotate(a), r
     a, r = nnx.fori_loop(0, k, body, (tuple(args), jnp.asarray(0, dtype=jnp.int64)))
+    c['_ret_args'] = list(a)
     return r, None
   if kind == 'while':
     def cond_fun(val):
@@ -159,8 +185,9 @@ def call(kind, c, fn_desc, args, k):
     def body(val):
       a, i, _ = val
       r = f(*a)
-      return a, i + 1, r
+      return rotate(a), i + 1, r
     a, i, r = nnx.while_loop(cond_fun, body, (tuple(args), jnp.asarray(0, dtype=jnp.int64), jnp.asarray(0, dtype=jnp.int64)))
+    c['_ret_args'] = list(a)
     return r, None
   raise ValueError(kind)
 
@@ -180,13 +207,16 @@ def run_case(c):
     kind, k = call_['kind'], call_.get('k', 1)
     res = {}
     try:
-      val, obj = call(kind, {**c, **call_, '_cache': c['_cache']}, fd, args, k)
-      res['impl'] = {'value': int(np.asarray(val)) % 2**64, **observe(objs, args, obj)}
+      cc = {**c, **call_, '_cache': c['_cache']}
+      val, obj = call(kind, cc, fd, args, k)
+      # loops: the carry handed back is what the caller goes on with
+      res['impl'] = {'value': int(np.asarray(val)) % 2**64, **observe(objs, cc['_ret_args'] or args, obj)}
     except Exception as e:  # pylint: disable=broad-except
       res['impl'] = {'err': type(e).__name__, 'msg': str(e)[:160]}
     try:
-      val, obj = call('eager', c, fd, twin_args, k)
-      res['eager'] = {'value': int(np.asarray(val)) % 2**64, **observe(twin_objs, twin_args, obj)}
+      cc = {**c, **call_}
+      val, obj = call('eager', cc, fd, twin_args, k)
+      res['eager'] = {'value': int(np.asarray(val)) % 2**64, **observe(twin_objs, cc['_ret_args'] if kind in ('fori', 'while') else twin_args, obj)}
     except Exception as e:  # pylint: disable=broad-except
       res['eager'] = {'err': type(e).__name__, 'msg': str(e)[:160]}
     out.append(res)
